@@ -102,6 +102,8 @@ pub struct Case {
     pub base: Base,
     pub wrap: Wrap,
     pub limit: usize,
+    /// consumers registered before the first op (spill flags)
+    pub init: Vec<bool>,
     pub ops: Vec<Op>,
     /// final drops newest-first instead of oldest-first
     pub drop_rev: bool,
@@ -348,9 +350,9 @@ fn op_strategy(l: usize) -> BoxedStrategy<Op> {
 fn case_strategy(max_ops: usize) -> BoxedStrategy<Case> {
     let base = prop_oneof![1 => Just(Base::Unbounded), 3 => Just(Base::Greedy), 4 => Just(Base::Fair)];
     let wrap = prop_oneof![2 => Just(Wrap::None), 2 => Just(Wrap::Track), 2 => Just(Wrap::Peak), 2 => Just(Wrap::PeakOverTrack), 1 => Just(Wrap::TrackOverPeak)];
-    (base, wrap, limit_strategy(), any::<bool>())
-        .prop_flat_map(move |(base, wrap, limit, drop_rev)| {
-            prop::collection::vec(op_strategy(limit), 1..=max_ops).prop_map(move |ops| Case { base, wrap, limit, ops, drop_rev })
+    (base, wrap, limit_strategy(), any::<bool>(), prop::collection::vec(any::<bool>(), 0..=3))
+        .prop_flat_map(move |(base, wrap, limit, drop_rev, init)| {
+            prop::collection::vec(op_strategy(limit), 1..=max_ops).prop_map(move |ops| Case { base, wrap, limit, init: init.clone(), ops, drop_rev })
         })
         .boxed()
 }
@@ -371,7 +373,7 @@ impl Property for C17 {
         case_strategy(tier.pick(40, 120))
     }
     fn budget(&self, tier: Tier) -> Budget {
-        Budget::new(tier.pick(60_000, 3_000_000), tier.pick(8, 16)).min_nontrivial(tier.pick(2_000, 100_000))
+        Budget::new(tier.pick(400_000, 6_000_000), tier.pick(8, 16)).min_nontrivial(tier.pick(20_000, 300_000))
     }
     fn rule(&self) -> String {
         "history of 1..=40 (thorough 120) register/grow/try_grow/shrink/try_shrink/resize/try_resize/split/take/new_empty/free/drop/reset_peak ops over \
@@ -400,10 +402,12 @@ impl Property for C17 {
                 return CaseResult::violation(format!("{:?}({}) wrap={:?}: after step {} {:?}: {}", case.base, case.limit, case.wrap, $step, $op, $msg)).labels(labels)
             };
         }
+        let init: Vec<Op> = case.init.iter().take(MAX_CONSUMERS).map(|s| Op::Register { spill: *s }).collect();
         if let Err(e) = check_state(&m, &p) {
             fail!("init", "-", e);
         }
-        for (step, op) in case.ops.iter().enumerate() {
+        // steps 0..init.len() are the initial registrations, the generated ops follow
+        for (step, op) in init.iter().chain(case.ops.iter()).enumerate() {
             let nlive = m.live.len();
             match op {
                 Op::Register { spill } => {
